@@ -512,6 +512,12 @@ class _SSeq(object):
     def __reduce__(self):
         raise Unsupported('pickling a symbolic %s' % type(self).__name__)
 
+    def __copy__(self):
+        return self
+
+    def __deepcopy__(self, memo):
+        return self          # immutable
+
     def __mod__(self, o):
         raise Unsupported('%-formatting with a symbolic receiver')
 
